@@ -333,6 +333,9 @@ def _discharge_idx(i):
     if d["status"] != "proved":
         fail = {"status": d["status"], "case": _js(ob.info.get("case")), "branches": ob.info.get("branches"),
                 "goal": str(ob.goal)[:2000], "reason": d.get("reason"), "backend": d["backend"]}
+        extra = {k: _js(v) for k, v in ob.info.items() if k not in ("witness", "case", "branches", "kind", "backend", "hyps", "only_hyps", "axioms")}
+        if extra:
+            fail["details"] = extra
         wf = ob.info.get("witness")
         model = d.get("model") if d["status"] == "refuted" else d.get("candidate")
         if model is not None:
@@ -464,7 +467,7 @@ def replay(P, pid, label, fail, outdir):
     path = os.path.join(outdir, f"{label.replace('/', '_').replace(':', '.')}_{h}.json")
     doc = {"property": pid, "obligation": label, "status": fail["status"], "case": fail.get("case"),
            "branches": fail.get("branches"), "goal": fail.get("goal"), "witness": fail.get("witness"),
-           "solver_model": fail.get("model"), "solver": fail.get("backend"), "reason": fail.get("reason")}
+           "solver_model": fail.get("model"), "solver": fail.get("backend"), "reason": fail.get("reason"), "details": fail.get("details")}
     reproduced, out = None, ""
     script = os.path.join(VERIF, "replay", f"{pid}.py")
     if fail.get("witness") is not None and os.path.exists(script):
